@@ -1,3 +1,6 @@
 SPECIFICATION Spec
+CONSTANTS
+  Modes = {"orbit", "seeds", "w16", "xs", "xo"}
+  Full = FALSE
 INVARIANTS Laws EmitInv
 CHECK_DEADLOCK FALSE
